@@ -73,13 +73,15 @@ def run(tier, seed):
         # (tiny / huge: the float stream scaled by a power of two - exact in binary floating point - must give the
         # scaled statistics; results are compared in units of that power)
         for name, f0, unit in (("int", lambda i: i, 1), ("float", lambda i: 0.25 * i - 100.0, 1.0), ("big", lambda i: 1e6 + i, 1.0),
-                               ("tiny", lambda i: 0.25 * i - 1.0, 2.0 ** -70), ("huge", lambda i: 0.5 * i - 2.0, 2.0 ** 60)):
+                               ("tiny", lambda i: 0.25 * i - 1.0, 2.0 ** -70), ("huge", lambda i: 0.5 * i - 2.0, 2.0 ** 60),
+                               # one huge value passing through a window of tiny ones (nothing of it may stay behind)
+                               ("spike", lambda i: 1e8 if i == 2 else 1e-8 * i, 1.0)):
             f = (lambda i, f0=f0, unit=unit: f0(i) * unit)
             vals = [f(i) for i in range(1, nmax + 1)]
             key = "k=%d values=%s n<=%d" % (k, name, nmax)
             try:
                 import numpy as np
-                kconv = {"int": int, "float": np.int64, "big": np.int8, "tiny": np.uint8, "huge": np.int32}[name]
+                kconv = {"int": int, "float": np.int64, "big": np.int8, "tiny": np.uint8, "huge": np.int32, "spike": int}[name]
                 obs = _drive(k, vals, kconv, keyword=(name in ("float", "tiny")))
             except Exception as e:
                 ctx.violation("replay.sw.usable", "k=%d" % k, "SlidingWindowTracker(%d) cannot be constructed/used "
